@@ -1,7 +1,7 @@
 package standard
 
 // Conformance driver of property C17 (spec/Concurrency.tla), group "controller": head events from two
-// beacon nodes || duty jobs on the real controller.  Reuses the controller harness of C03
+// beacon nodes || duty jobs || HasPendingAttestations (main goroutine at shutdown) on the real controller.  Reuses the controller harness of C03
 // (c03NewHarness: virtual clock, recording scheduler, scripted duty oracle, recording duty services).
 // Built with -race; the schedule runner is verifdrivers/c17run.
 
@@ -53,6 +53,10 @@ func (c *c17Controller) Call(ctx context.Context, _ int, op c17run.Op) int {
 		return 0
 	case "Job":
 		c.h.Sched.Fire(c.h.Ctx, c03JobName("att", c.slot))
+		return 0
+	case "Pending":
+		// main.go asks this from the main goroutine while it waits to shut down
+		c.h.Svc.HasPendingAttestations(ctx, phase0.Slot(c.slot))
 		return 0
 	}
 	panic("c17 harness: controller op " + op.Name())
